@@ -158,6 +158,8 @@ def matrix(kind, tier, seed):
         M.append(_c("NaiveElimination", "VVD2a", order=("theta", 90), eps=0.2, L=3))
         M.append(_c("NaiveElimination", "VVD3a", order=("cone3d", "acute"), eps=0.2, L=1))
         M.append(_c("NaiveElimination", "VVD2tiny", order=("theta", 45), eps=2.0, noise=0.5))      # default (theoretical) L
+        M.append(_c("NaiveElimination", "VVD2tiny", order=("orth", 2), eps=0.2, L=51, max_steps=56))      # long runs: completion on round L exactly
+        M.append(_c("NaiveElimination", "VVD2tiny", order=("theta", 60), eps=0.2, L=120, max_steps=125))
         M.append(_c("PaVeBa", "VVD3a", order=("ice", 30, 6), eps=0.3, contraction=8))
     if kind == "sample":
         for b in (1, 2, 3):
